@@ -45,22 +45,46 @@ pub(crate) fn optimize(
         1usize
     };
 
+    #[cfg(datamatrix_verif)]
+    {
+        crate::verif::start(data.len());
+        crate::verif::record(crate::verif::PlanEvent::Start {
+            n: data.len(),
+            written,
+            start_enabled: first_iteration == 0,
+            seeds: plans.len(),
+        });
+    }
+
     for iteration in first_iteration.. {
         let mut at_end = false;
         let use_as_start = iteration == 0;
+        #[cfg(datamatrix_verif)]
+        let (mut verif_stepped, mut verif_switch_calls, mut verif_spawned) = (0usize, 0usize, 0usize);
 
         let rest_chars = data.len().saturating_sub(iteration);
         for mut plan in plans.drain(0..) {
             let plan_copy_before_step = plan.clone();
+            #[cfg(datamatrix_verif)]
+            {
+                verif_stepped += 1;
+            }
             let result = if let Some(result) = plan.step() {
                 result
             } else {
+                #[cfg(datamatrix_verif)]
+                let verif_len = new_plan.len();
                 plan_copy_before_step.add_switches(
                     &mut new_plan,
                     rest_chars, // chars left
                     use_as_start,
                     enabled_modes,
                 );
+                #[cfg(datamatrix_verif)]
+                {
+                    verif_switch_calls += 1;
+                    verif_spawned += new_plan.len() - verif_len;
+                }
                 // remove plan, it can not process input
                 continue;
             };
@@ -69,6 +93,8 @@ pub(crate) fn optimize(
             // we then add mode switches to all other modes, unless
             // the step was optimal (unbeatable) or we are at the end.
             if !result.unbeatable && !result.end {
+                #[cfg(datamatrix_verif)]
+                let verif_len = new_plan.len();
                 // this also calls step() one time.
                 plan_copy_before_step.add_switches(
                     &mut new_plan,
@@ -76,6 +102,11 @@ pub(crate) fn optimize(
                     use_as_start,
                     enabled_modes,
                 );
+                #[cfg(datamatrix_verif)]
+                {
+                    verif_switch_calls += 1;
+                    verif_spawned += new_plan.len() - verif_len;
+                }
             }
             if result.end {
                 // since all modes step one character at a time,
@@ -85,9 +116,29 @@ pub(crate) fn optimize(
             assert_eq!(result.end, at_end);
         }
 
+        #[cfg(datamatrix_verif)]
+        let verif_before_prune = new_plan.len();
+        #[cfg(datamatrix_verif)]
+        crate::verif::count_steps(verif_stepped + 5 * verif_switch_calls);
+
         remove_hopeless_cases(&mut new_plan);
 
+        #[cfg(datamatrix_verif)]
+        crate::verif::record(crate::verif::PlanEvent::Iterate {
+            iteration,
+            stepped: verif_stepped,
+            switch_calls: verif_switch_calls,
+            spawned: verif_spawned,
+            before_prune: verif_before_prune,
+            alive: new_plan
+                .iter()
+                .map(|p| (p.start_mode().index() as u8, p.current().index() as u8))
+                .collect(),
+        });
+
         if new_plan.is_empty() {
+            #[cfg(datamatrix_verif)]
+            crate::verif::record(crate::verif::PlanEvent::NoPlan);
             return None;
         }
 
@@ -101,12 +152,24 @@ pub(crate) fn optimize(
                     (p.cost().ceil(), max_enc, p.switches.len())
                 })
                 .unwrap();
+            #[cfg(datamatrix_verif)]
+            let verif_cost = plan.cost().verif_twelfths();
             plan.switches.push((0, plan.current()));
 
             // Remove a "switch" to ASCII if we are at the very beginning
             if written == 0 && plan.switches[0] == (data.len(), EncodationType::Ascii) {
                 plan.switches.remove(0);
             }
+
+            #[cfg(datamatrix_verif)]
+            crate::verif::record(crate::verif::PlanEvent::Chosen {
+                cost12: verif_cost,
+                switches: plan
+                    .switches
+                    .iter()
+                    .map(|(n, m)| (*n, m.index() as u8))
+                    .collect(),
+            });
 
             return Some(plan.switches);
         }
